@@ -514,6 +514,9 @@ def method(ctx, flavours):
                     why.append('%d closure calls (expected exactly one)' % len(calls_here))
                 else:
                     cbi, ct = calls_here[0]
+                    # the callback runs for *every* edge handed to the dispatcher: no path through this arm reaches the return without it
+                    if tg != cbi and any(cfg.path_exists(tg, rb_, avoiding={cbi}) for rb_ in cfg.returns):
+                        why.append('the closure call is conditional: some edges are never handed to the callback')
                     # argument tuple carries the edge parameter
                     argt = pv.of_operand(ct['args'][1]) if len(ct['args']) > 1 else None
                     if not term_mentions(argt, lambda z: z == ('param', 2)):
